@@ -256,6 +256,12 @@ fn hyphenate_impl(hyphenater: &Hyphenator, list: &[ds::Horizontal]) -> Vec<ds::H
             IndexIter::new(indices, left_hyphen_min, hyph_max)
         };
         let mut next_or = indices.next();
+        if next_or.is_none() {
+            // TeX.2021.902: if no hyphens were found the word is left exactly as it is.
+            // (Running the lig/kern program again is not an identity near the boundaries.)
+            i = hyphenation_start_i;
+            continue;
+        }
 
         let mut main_iter = hyphenater.lig_kern_program.run_with_options(
             s.chars(),
